@@ -414,3 +414,50 @@ def decorate(rng, d, n_raw=3, n_dangling=2, n_assert=1):
         d.asserts.append(pyrtl.rtl_assert(cond, AssertFired('acond%d' % k), block=block))
         d.ops.append('rtl_assert')
     return d
+
+
+def extend_design(rng, d, k=3, prefix='x'):
+    """second building phase on an existing design (its block must be the working block again): k more expression
+    trees over existing wires, each with fresh automatically named temporaries and constants, ending in an Output"""
+    block = d.block
+    src = sorted((w for w in block.wirevector_set if not isinstance(w, (pyrtl.Output, pyrtl.Const))),
+                 key=lambda w: w.name)
+    base = len(d.outputs)
+    for j in range(k):
+        a, b, c = rng.choice(src), rng.choice(src), rng.choice(src)
+        w = max(len(a), len(b))
+        e = (a.zero_extended(w) ^ b.zero_extended(w)) + pyrtl.Const(boundary_value(rng, 3), bitwidth=3)
+        e = pyrtl.select(c[rng.randrange(len(c))], e, ~e)
+        o = pyrtl.Output(len(e), '%sout%d' % (prefix, base + j))
+        o <<= e
+        d.outputs.append(o)
+        d.ops.append('phase2')
+    return d
+
+
+def add_sync_memory(rng, d, name='smem'):
+    """a synchronous (default) MemBlock: its read addresses may only come from Inputs/Registers/Consts through
+    wire/concat/select nets, which is what sanity_check_memory_sync walks"""
+    block = d.block
+    srcs = sorted((w for w in list(d.inputs) + list(d.regs)), key=lambda w: w.name)
+    aw = rng.randint(2, 4)
+    m = pyrtl.MemBlock(bitwidth=rng.randint(1, 8), addrwidth=aw, name=name, max_read_ports=None,
+                       max_write_ports=None)
+
+    def addr():
+        parts = []
+        while sum(len(p) for p in parts) < aw:
+            s = rng.choice(srcs)
+            lo = rng.randrange(len(s))
+            parts.append(s[lo:lo + rng.randint(1, 2)])
+        return pyrtl.concat(*parts)[:aw]
+    for _ in range(rng.randint(1, 2)):
+        o = pyrtl.Output(m.bitwidth, 'smout%d' % len(d.outputs))
+        o <<= m[addr()]
+        d.outputs.append(o)
+        d.ops.append('syncmemrd')
+    data = rng.choice(srcs)
+    m[addr()] <<= pyrtl.MemBlock.EnabledWrite(fit(rng, data, m.bitwidth), data[0])
+    d.ops.append('memwr')
+    d.mems.append(m)
+    return m
